@@ -93,7 +93,7 @@ func (v *VM) VerifIns(i int) (op string, a, b, c int) {
 
 // VerifOp is the numeric opcode of the instruction about to execute;
 // VerifOpName names an opcode (empty for numbers that are not opcodes).
-func (v *VM) VerifOp() int       { return int(v.frame.Codes[v.frame.N].Code) }
+func (v *VM) VerifOp() int      { return int(v.frame.Codes[v.frame.N].Code) }
 func VerifOpName(op int) string { return code(op).String() }
 
 // VerifInsPos renders the source position of instruction i of the running frame.
